@@ -27,7 +27,7 @@ def run(ctx):
     ctx.model('Krylov', 'm_regimes', constants=dict(NMAX=ctx.pick(5, 7), MMAX=ctx.pick(8, 10)),
               invariants=['SizesOK', 'WarnOK', 'RoutingOK', 'ExhaustedSpans'], properties=['Terminates'], coverage=True)
     traces, cases = [], []
-    for _ in range(ctx.pick(700, 15000)):
+    for _ in range(ctx.pick(700, 120000)):
         kind = str(rng.choice(['eigh', 'expm_h', 'expm_g']))
         herm = kind != 'expm_g' or bool(rng.integers(2))
         A, v, fam, vk = krylovgen.gen_problem(rng, herm)
@@ -52,7 +52,7 @@ def run(ctx):
     ctx.notes['exhausted_regime_calls'] = sum(1 for t in traces if t[0].get('m', 0) >= t[0].get('kdim', 99))
     for t in traces[::max(1, len(traces) // 6)]:
         ctx.sample(t[0])
-    bad = validate_chunks(ctx, 'TraceKrylov', 'tk5', traces, chunk=ctx.pick(400, 3000))
+    bad = validate_chunks(ctx, 'TraceKrylov', 'tk5', traces, chunk=ctx.pick(400, 8000))
     for idx, why in sorted(bad.items())[:40]:
         clause = why[0][2] if why and len(why[0]) > 2 else 'rejected'
         ctx.violation(f'krylov:{traces[idx][0].get("ev")}:{clause[:70]}', f'{cases[idx]}: {clause}', dict(case=cases[idx], record=traces[idx][0]))
